@@ -9,7 +9,7 @@
 //   D                                  destroyed
 //   <has_value><type>:<p...>:<cp...>:<r...>
 // (followed by :f<k> when k > 0 casts to types never stored in the pool succeeded — always a failure)
-// with type in v(oid) i d s m p, and per held type of the pool (i,d,s,m,p) the outcome of
+// with type in v(oid) i d s m p t, and per held type of the pool (i,d,s,m,p,t; t = probe with a throwing copy constructor) the outcome of
 // `any_cast<T>(&a)` (p), `any_cast<T>(&const a)` (cp), `any_cast<const T&>(const a)` (r): the value
 // code, or x for nullptr / bad_any_cast.  Then every container is destroyed and the final counters
 // and the net number of `operator new` allocations of the whole sequence (`leak=`) are printed.
@@ -46,6 +46,25 @@ struct Probe {
     ~Probe() { --live; }
 };
 long Probe::live = 0, Probe::copies = 0, Probe::moves = 0;
+
+// ---- probe whose copy constructor throws on demand (armed by a leading `!` on an operation token):
+// counted together with Probe; nothing is counted for a construction that throws (no object comes to life)
+struct ThrowerError : std::runtime_error { ThrowerError() : std::runtime_error("thrower") {} };
+struct Thrower {
+    static long fuse;      // -1: disarmed; k >= 0: the (k+1)-th next copy construction throws
+    long id;
+    Thrower() : id(-2) { ++Probe::live; }
+    explicit Thrower(long i) : id(i) { ++Probe::live; }
+    Thrower(const Thrower& o) : id(o.id) {
+        if (fuse == 0) { fuse = -1; throw ThrowerError(); }
+        if (fuse > 0) --fuse;
+        ++Probe::live; ++Probe::copies;
+    }
+    Thrower(Thrower&& o) noexcept : id(o.id) { o.id = -1; ++Probe::live; ++Probe::moves; }
+    Thrower& operator=(const Thrower& o) noexcept { id = o.id; return *this; }
+    ~Thrower() { --Probe::live; }
+};
+long Thrower::fuse = -1;
 
 // ---- values of the held types named by an integer code
 static const char* const kPrefix = "bfl-any-payload-long-enough-to-defeat-the-small-string-optimisation#";
@@ -87,6 +106,11 @@ template <> struct V<Probe> {
     static std::string code(const Probe& v) { return std::to_string(v.id); }
 };
 
+template <> struct V<Thrower> {
+    static Thrower mk(long c) { return Thrower(c); }
+    static std::string code(const Thrower& v) { return std::to_string(v.id); }
+};
+
 static char type_char(const std::type_info& t) {
     if (t == typeid(void)) return 'v';
     if (t == typeid(int)) return 'i';
@@ -94,6 +118,7 @@ static char type_char(const std::type_info& t) {
     if (t == typeid(std::string)) return 's';
     if (t == typeid(Eigen::MatrixXd)) return 'm';
     if (t == typeid(Probe)) return 'p';
+    if (t == typeid(Thrower)) return 't';
     return '?';
 }
 
@@ -191,9 +216,9 @@ static std::string slot_view(long k) {
     std::string s;
     s += a.has_value() ? '1' : '0';
     s += type_char(a.type());
-    s += ':'; s += vp<int>(a) + "," + vp<double>(a) + "," + vp<std::string>(a) + "," + vp<Eigen::MatrixXd>(a) + "," + vp<Probe>(a);
-    s += ':'; s += vcp<int>(a) + "," + vcp<double>(a) + "," + vcp<std::string>(a) + "," + vcp<Eigen::MatrixXd>(a) + "," + vcp<Probe>(a);
-    s += ':'; s += vr<int>(a) + "," + vr<double>(a) + "," + vr<std::string>(a) + "," + vr<Eigen::MatrixXd>(a) + "," + vr<Probe>(a);
+    s += ':'; s += vp<int>(a) + "," + vp<double>(a) + "," + vp<std::string>(a) + "," + vp<Eigen::MatrixXd>(a) + "," + vp<Probe>(a) + "," + vp<Thrower>(a);
+    s += ':'; s += vcp<int>(a) + "," + vcp<double>(a) + "," + vcp<std::string>(a) + "," + vcp<Eigen::MatrixXd>(a) + "," + vcp<Probe>(a) + "," + vcp<Thrower>(a);
+    s += ':'; s += vr<int>(a) + "," + vr<double>(a) + "," + vr<std::string>(a) + "," + vr<Eigen::MatrixXd>(a) + "," + vr<Probe>(a) + "," + vr<Thrower>(a);
     int fh = foreign_hits(a) + foreign_value_hits(a);
     if (fh) s += ":f" + std::to_string(fh);      // a cast to a type that was never stored succeeded
     return s;
@@ -204,7 +229,7 @@ static std::string counters() {
 
 #define BY_TAG(tag, CALL)                                              \
     ((tag) == "i" ? CALL(int) : (tag) == "d" ? CALL(double) : (tag) == "s" ? CALL(std::string) \
-     : (tag) == "m" ? CALL(Eigen::MatrixXd) : (tag) == "p" ? CALL(Probe) : throw vh::BadArgs("tag"))
+     : (tag) == "m" ? CALL(Eigen::MatrixXd) : (tag) == "p" ? CALL(Probe) : (tag) == "t" ? CALL(Thrower) : throw vh::BadArgs("tag"))
 
 static std::vector<std::string> split(const std::string& s) {
     std::vector<std::string> r; std::string cur;
@@ -309,13 +334,20 @@ static std::string anyseq(Toks& t) {
     bool full = mode == "F";
     std::string out; out.reserve(4096);
     g_n = n;
-    Probe::live = Probe::copies = Probe::moves = 0;
+    Probe::live = Probe::copies = Probe::moves = 0; Thrower::fuse = -1;
     const long n0 = g_live_allocs;
     try {
         bool first = true;
         while (!t.empty()) {
             std::string tok = t.tok();
-            std::string r = exec_op(tok);
+            std::string r;
+            if (!tok.empty() && tok[0] == '!') {
+                // the copy constructor of the throwing probe is armed for this operation only
+                Thrower::fuse = 0;
+                try { r = exec_op(tok.substr(1)); }
+                catch (const ThrowerError&) { r = "threw"; }
+                Thrower::fuse = -1;
+            } else r = exec_op(tok);
             if (!first) out += ' ';
             first = false;
             out += r; out += ' '; out += counters();
